@@ -26,6 +26,10 @@ pub trait Scalar: Serialize + DeserializeOwned + PartialEq + Debug + Clone + 'st
     fn unspecified_under(&self, _ov: &crate::shapes::Ov) -> Option<&'static str> {
         None
     }
+    /// Two values with the same identity are the same mapping key (all NaNs are one key).
+    fn key_identity(&self) -> String {
+        self.to_json().to_string()
+    }
     /// DESIGN §3.6 rule for C12: the value needs a decision by the emitter.
     fn nontrivial(&self) -> bool;
     fn stable_hash(&self) -> u64 {
@@ -145,6 +149,9 @@ impl Scalar for F64 {
     fn placeholder() -> (Self, &'static [&'static str]) {
         (F64(7.25), &["7.25"])
     }
+    fn key_identity(&self) -> String {
+        if self.0.is_nan() { "nan".into() } else { format!("{:016x}", self.0.to_bits()) }
+    }
     fn nontrivial(&self) -> bool {
         true
     }
@@ -175,6 +182,9 @@ impl Scalar for F32 {
     }
     fn placeholder() -> (Self, &'static [&'static str]) {
         (F32(7.25), &["7.25"])
+    }
+    fn key_identity(&self) -> String {
+        if self.0.is_nan() { "nan".into() } else { format!("{:08x}", self.0.to_bits()) }
     }
     fn nontrivial(&self) -> bool {
         true
